@@ -274,6 +274,7 @@ def triage(ctx, results, scheds, max_sigs=12):
     by_sig, njourneys = roots(fails)
     ctx.count("tv_fail_lines", len(fails))
     ctx.count("tv_failing_journeys", njourneys)
+    unrepro = []
     for k, (sig, check, e, st, line) in enumerate(by_sig.values()):
         if k >= max_sigs:
             ctx.notes.append("%d further divergence signatures not reproduced individually: %s" % (
@@ -285,7 +286,8 @@ def triage(ctx, results, scheds, max_sigs=12):
         refails, _ = run_one(ctx, sched, "repro%d" % k)
         resigs = [f[0] for f in refails]
         if sig not in resigs:
-            raise vf.Infra("divergence %s in journey %s did not reproduce (fresh run: %s)" % (sig, st.get("name"), resigs[:5]))
+            unrepro.append("%s in journey %s (fresh run: %s)" % (sig, st.get("name"), resigs[:5]))
+            continue
         f2 = next(f for f in refails if f[0] == sig)
         also = []
         for x in resigs:
@@ -294,6 +296,11 @@ def triage(ctx, results, scheds, max_sigs=12):
         vf.report(ctx, sig, describe(f2[1], f2[2], f2[3]) + ("; later in the same journey: " + ", ".join(also[:8]) if also else ""),
                   {"schedule": sched, "seed": ctx.seed, "check": f2[1], "event": {k2: v for k2, v in f2[2].items() if k2 != "dump"},
                    "dump": f2[2].get("dump"), "start": f2[3]})
+    if unrepro:
+        # a divergence that does not reproduce is never a verdict; it only stops the run when nothing else was confirmed
+        if not ctx.violations:
+            raise vf.Infra("divergence did not reproduce: " + "; ".join(unrepro[:5]))
+        ctx.notes.append("divergences that did not reproduce on a fresh run (not reported): " + "; ".join(unrepro[:10]))
 
 
 # ------------------------------------------------------------------ non-vacuity
@@ -447,7 +454,7 @@ def run(ctx):
         jobs.append(("edges", lambda: gen(ctx, "edges", "edges", pcs=["empty", "all256", "max", "big"],
                                           hcs=["plain", "sensmix", "collide", "values2", "hmax"], maxdeq=2, maxatt=2, maxrs=1, workers=4,
                                           timeout=1500)))
-        jobs.append(("sim", lambda: gen(ctx, "sim", "sim", depth=24, simulate=2000, pcs=pcs, free=True, maxdeq=12, maxatt=12, maxrs=4,
+        jobs.append(("sim", lambda: gen(ctx, "sim", "sim", depth=24, simulate=3000, pcs=pcs, free=True, maxdeq=12, maxatt=12, maxrs=4,
                                         minend=4, timeout=1500)))
     with cf.ThreadPoolExecutor(max_workers=len(jobs)) as ex:
         futs = [(tag, ex.submit(fn)) for tag, fn in jobs]
